@@ -40,6 +40,7 @@ structure DSt where
   fix1 : Bool := false
   fix2 : Bool := false
   fix3 : Bool := false
+  fix6 : Bool := false
 
 structure SegTab where
   s : Bytes
@@ -229,8 +230,8 @@ def handleOp (st : DSt) (line : String) : String :=
     (match parseDesc d, bytesOfHex p with
      | some s, some p =>
        let sp := splitOp s p
-       let ok := p.isEmpty || resStr sp == resStr (strList (splitB p (s.len + 2) s.bytes))
-       spaced [resStr sp, resStr (splitWithOp U (fun g => g == p) s), resStr (stripPrefixOp s p),
+       let ok := resStr sp == resStr (strList (splitB p (s.len + 2) s.bytes))
+       spaced [resStr sp, resStr (splitWithOp U (fun g => g == p) s st.fix6), resStr (stripPrefixOp s p),
                resStr (stripSuffixOp s p), resStr (.bool (containsB p s.bytes)),
                resStr (.bool (startsWithB p s.bytes)), resStr (.bool (endsWithB p s.bytes))]
          ++ (if ok then "" else " !spec:split")
@@ -294,7 +295,7 @@ def step (st : DSt) (line : String) : DSt × String :=
   else if line.startsWith "fixes" then
     let ids := line.splitOn " "
     ({ st with fix1 := st.fix1 || ids.contains "F-C15-1", fix2 := st.fix2 || ids.contains "F-C15-2",
-               fix3 := st.fix3 || ids.contains "F-C15-3" }, "ok")
+               fix3 := st.fix3 || ids.contains "F-C15-3", fix6 := st.fix6 || ids.contains "F-C15-6" }, "ok")
   else (st, handleOp st line)
 
 def main : IO Unit := Proto.serveSt ({} : DSt) step
